@@ -23,10 +23,11 @@ func getIntField(L *LState, tb *LTable, key string, v int) int {
 		if num, err := parseNumber(string(lv)); err == nil {
 			return int(num)
 		}
-	default:
-		return v
 	}
-
+	if v < 0 {
+		// no default: the field is required (year, month, day)
+		L.RaiseError("field '%s' missing in date table", key)
+	}
 	return v
 }
 
